@@ -61,6 +61,35 @@ bool has_basic(const Basic &b, const Basic &x)
     return v.apply(b);
 }
 
+void HasSymbolVisitor::bvisit(const ConditionSet &x)
+{
+    // {sym | condition}: sym is bound (same as in free_symbols)
+    local_stop_ = true;
+    if (eq(*x_, *x.get_symbol())) {
+        return;
+    }
+    HasSymbolVisitor inner(x_);
+    if (inner.apply(*x.get_condition())) {
+        has_ = true;
+        stop_ = true;
+    }
+}
+
+void HasSymbolVisitor::bvisit(const ImageSet &x)
+{
+    // {expr | sym in base}: sym is bound in expr (same as in free_symbols)
+    local_stop_ = true;
+    HasSymbolVisitor inner(x_);
+    bool found = inner.apply(*x.get_baseset());
+    if (not found and not eq(*x_, *x.get_symbol())) {
+        found = inner.apply(*x.get_expr());
+    }
+    if (found) {
+        has_ = true;
+        stop_ = true;
+    }
+}
+
 bool has_symbol(const Basic &b, const Basic &x)
 {
     // We are breaking a rule when using ptrFromRef() here, but since
@@ -103,6 +132,24 @@ public:
                 p->accept(*this);
             }
         }
+    }
+
+    void bvisit(const ConditionSet &x)
+    {
+        // {sym | condition}: sym is bound
+        set_basic set_ = free_symbols(*x.get_condition());
+        set_.erase(x.get_symbol());
+        s.insert(set_.begin(), set_.end());
+    }
+
+    void bvisit(const ImageSet &x)
+    {
+        // {expr | sym in base}: sym is bound in expr
+        set_basic set_ = free_symbols(*x.get_expr());
+        set_.erase(x.get_symbol());
+        s.insert(set_.begin(), set_.end());
+        set_basic base_ = free_symbols(*x.get_baseset());
+        s.insert(base_.begin(), base_.end());
     }
 
     void bvisit(const Basic &x)
